@@ -303,6 +303,51 @@ def scenario(run, rng, idx):
         w.close()
 
 
+def kick_at_shutdown_scenario(run, rng, idx, steps_before_finish):
+    """directed: several connected clients; one leaves (peer DISCONNECT); the handler's disconnect event
+    kicks every other client (client.disconnect() from inside the event, i.e. after the sweep may already
+    have passed them in this tick); the server is shut down `steps_before_finish` iterations later.
+    Every client that connected must still get exactly one disconnect event."""
+    cfg = CFGS[1]
+    base = V.random_policy(rng, p_raise=0.0, chatty=False)
+
+    def policy(sim, n, ev):
+        acts, raises = base(sim, n, ev)
+        if ev[0] == 5:
+            acts = [a for a in acts if a[0] != 0] + [[0, V.av(a)] for a in list(sim.ctxt.connections.keys())]
+        return acts, raises
+    w = V.World(run, rng, cfg=cfg, policy=policy, full=True, mtu=1500)
+    sim = w.sim
+    addrs = [("10.2.0.%d" % (i + 1), 6000 + i) for i in range(4)]
+    try:
+        order = list(addrs)
+        rng.shuffle(order)
+        for a in order:
+            w.add_client(a)
+            for _ in range(rng.randrange(1, 4)):
+                if not w.step(300, [], []):
+                    break
+        for _ in range(12):
+            if all(c["hc"].status() == 2 for c in w.clients):
+                break
+            w.step(300, [], [])
+        leaver = rng.choice(w.clients)
+        leaver["hc"].client.disconnect()
+        for _ in range(steps_before_finish):
+            w.step(300, [], [])
+        w.finish()
+        diff = sim.check_model()
+        label = "kick-at-shutdown %d/%d" % (idx, steps_before_finish)
+        lifecycle_oracle(run, sim, label, cfg)
+        run.count("kick-at-shutdown worlds")
+        if sim.internal:
+            raise RuntimeError("harness-internal problem: %s" % sim.internal[:3])
+        run.nt(("kick", idx, steps_before_finish, len(sim.log)))
+        return [label, len(sim.steps)], [0] if diff is None else [1, diff], sim
+    finally:
+        w.close()
+
+
 def run(run):
     run.rules.append(RULE)
     get_token_cases(run)
@@ -313,4 +358,10 @@ def run(run):
         cases.append(c)
         impl.append([0])
         model.append(d)
+    for i in range(24 if run.thorough() else 8):
+        for k in (0, 1, 2, 3):
+            c, d, sim = kick_at_shutdown_scenario(run, run.rng, i, k)
+            cases.append(c)
+            impl.append([0])
+            model.append(d)
     run.compare("srv_run", cases, impl, model)
